@@ -16,8 +16,13 @@
 package main
 
 import (
+	"time"
+
 	"verifharness/drv"
 )
+
+// the -race build keeps this (parent) process free of pandora code: every case runs in a child
+func workers() int { return 4 }
 
 func main() {
 	if childMain() {
@@ -28,7 +33,8 @@ func main() {
 		Gen:     gen,
 		Run:     run,
 		Class:   class,
-		Workers: 4,
+		Workers: workers(),
+		Timeout: 150 * time.Second,
 		Rule: "every built-in pool kind (http uri/uripost/raw/json with and without preload, http/scenario, grpc/scenario, " +
 			"grpc/json with and without shared client): aliasing graph of two instances + write set of one real Shoot; gun " +
 			"identity/overlap probe through the real engine with 1..8 instances; race-detector sweep with 8 instances; " +
